@@ -226,7 +226,7 @@ func init() {
 		assumptions: commonAssumptions,
 		jobs: func(tier string) []*job {
 			return []*job{
-				{variant: "plain", mode: "main", shards: 16, maxResume: 4, gomaxprocs: 16, weight: 1, memlimit: "3GiB"},
+				{variant: "plain", mode: "main", shards: 16, maxResume: 4, gomaxprocs: 16, weight: 1, memlimit: "3GiB", quickTimeout: 10 * time.Minute},
 				{variant: "race", mode: "main", shards: 4, maxResume: 0, gomaxprocs: 16, weight: 2, memlimit: "4GiB", quickTimeout: 8 * time.Minute, stage: 1},
 			}
 		},
